@@ -50,7 +50,9 @@ func streamWF(c *Case) *WF {
 	}
 	pad := []int{0, 40, 100, 300}[t.Choose(simrt.StGen, 4, 0)]
 	// the streamed path may lie in a directory that does not exist yet
-	spat := []string{"{i:a}.prod.s", "streams/{i:a|basename}.prod.s", "d1/d2/{i:a|basename}.prod.s"}[t.Choose(simrt.StGen, 3, 0)]
+	// (or in a sibling of the working directory: a path with ../)
+	spat := []string{"{i:a}.prod.s", "streams/{i:a|basename}.prod.s", "d1/d2/{i:a|basename}.prod.s", "../ext/{i:a|basename}.prod.s"}[t.Choose(simrt.StGen, 4, 0)]
+	w.Dirs = []string{"/ext"}
 	prod := addNode(w, Node{Name: "prod", Kind: KProc, Cores: 1, PadTo: pad,
 		Ins:  []InSpec{{Name: "a", From: []Edge{up}}},
 		Outs: []OutSpec{{Name: "s", Pattern: spat, Stream: true}}})
@@ -65,11 +67,29 @@ func streamWF(c *Case) *WF {
 		// the consumer has an ordinary second in-port next to the streamed one
 		cons.Ins = append(cons.Ins, InSpec{Name: "b", From: []Edge{up}})
 	}
+	if t.Choose(simrt.StGen, 4, 0) == 1 {
+		// ... or a parameter port (one value per streamed item)
+		ps := ParamSpec{Name: "x"}
+		for i := 0; i < n; i++ {
+			ps.Vals = append(ps.Vals, fmt.Sprintf("xv%d", i))
+		}
+		cons.Params = []ParamSpec{ps}
+		cons.Outs[0].Pattern = "{i:a}.{p:x}.cons.o0"
+	}
 	ci := addNode(w, cons)
 	if t.Choose(simrt.StGen, 2, 0) == 1 {
 		oneToOne(w, "post", Edge{ci, "o0"})
 	}
-	w.MaxTasks = 2*n + t.Choose(simrt.StGen, 3, 0)
+	slots := 2 * n
+	if t.Choose(simrt.StGen, 4, 0) == 1 {
+		// a second streamed output of the producer, with a consumer of its own
+		w.Nodes[prod].Outs = append(w.Nodes[prod].Outs, OutSpec{Name: "s2", Pattern: "{i:a}.prod.s2", Stream: true})
+		addNode(w, Node{Name: "cons2", Kind: KProc, Cores: 1,
+			Ins:  []InSpec{{Name: "a", From: []Edge{{prod, "s2"}}}},
+			Outs: []OutSpec{{Name: "o0", Pattern: "{i:a}.cons2.o0"}}})
+		slots = 3 * n
+	}
+	w.MaxTasks = slots + t.Choose(simrt.StGen, 3, 0)
 	w.Bufsize = bufsizeOf(t)
 	return w
 }
@@ -108,7 +128,7 @@ func init() {
 				return v
 			}
 			if v := auditOracle(inc.Sim.FS.Root, ex, instsByKey(inc)); v.Status != "ok" {
-				if strings.HasPrefix(v.Clause, "audit-") && strings.Contains(v.Detail, ".prod.s]") {
+				if strings.HasPrefix(v.Clause, "audit-") && (strings.Contains(v.Detail, ".prod.s]") || strings.Contains(v.Detail, ".prod.s2]")) {
 					v.Sig = "stream-consumer-bookkeeping-first"
 				}
 				if !c.Known(v) {
@@ -131,7 +151,7 @@ func init() {
 					return Viol("stream-rerun-no-termination", sig, "second run of a completed streaming workflow does not terminate normally: %s", endDesc(inc2))
 				}
 				for _, t := range ex.Tasks {
-					if t.Proc != "cons" && t.Proc != "post" {
+					if t.Proc != "cons" && t.Proc != "post" && t.Proc != "cons2" {
 						continue
 					}
 					for _, p := range t.Outs {
@@ -207,6 +227,16 @@ func init() {
 				Outs: []OutSpec{{Name: "o0", Pattern: "joined.join.o0"}}})
 			if t.Choose(simrt.StGen, 2, 0) == 1 {
 				oneToOne(w, "post", Edge{j, "o0"})
+			}
+			second := t.Choose(simrt.StGen, 3, 0) == 1
+			if second {
+				// a second, independent joining process: both expand their
+				// placeholders at about the same time
+				nq := 1 + t.Choose(simrt.StGen, 5, 0)
+				subq := addNode(w, Node{Name: "subq", Kind: KStreamToSub, Ins: []InSpec{{Name: "in", From: []Edge{{srcNode(w, "srcq", nq, ""), "out"}}}}, Outs: []OutSpec{{Name: "substream"}}})
+				addNode(w, Node{Name: "jb", Kind: KProc, Cores: 1,
+					Ins:  []InSpec{{Name: "x", From: []Edge{{subq, "substream"}}, Join: true, Sep: sep}},
+					Outs: []OutSpec{{Name: "o0", Pattern: "joinedb.jb.o0"}}})
 			}
 			w.MaxTasks = 1 + t.Choose(simrt.StGen, 4, 0)
 			w.Bufsize = bufsizeOf(t)
@@ -321,6 +351,31 @@ func init() {
 						return Viol("join-separator", "", "the executed script %q does not contain the members of port %s joined by %q", o.Script, port, sep)
 					}
 					off += n
+				}
+			}
+			if second {
+				var jbs []*simrt.OpInst
+				for _, oi := range inc.Sim.Shell.Insts {
+					if oi.Name == "jb" {
+						jbs = append(jbs, oi)
+					}
+				}
+				if len(jbs) != 1 {
+					return Viol("join-task-count", "", "the second joining process ran %d tasks for one sub-stream (want exactly 1): %s", len(jbs), endDesc(inc))
+				}
+				var wantB, gotB []string
+				for _, tk := range ex.Tasks {
+					if tk.Proc == "jb" {
+						for _, m := range tk.Joined["x"] {
+							wantB = append(wantB, Abs(m.Path))
+						}
+					}
+				}
+				for _, m := range jbs[0].Joined {
+					gotB = append(gotB, cleanPath(jbs[0].Cwd+"/"+m))
+				}
+				if strings.Join(gotB, " ") != strings.Join(wantB, " ") {
+					return Viol("join-members", "", "second joining process: placeholder expanded to %v (resolved: %v); its sub-stream was %v", jbs[0].Joined, gotB, wantB)
 				}
 			}
 			if unordered {
